@@ -5,14 +5,14 @@ CONFIG = dict(
          "(sector size 1, CAS read buffer factory, in-memory device) behind a BlockList wrapper; at every PopFront/PushBack the real findBlockWithSpace makes, the wrapper first completes the scheduled "
          "parked reads (real buffers from the real Get(); the probe's byte was flipped on the medium, so CAS validation fails and the real integrity callback runs), records the visibility of one "
          "probe per live block through the real HashingKeyLocationMap/InMemoryLocationRecordArray -> BlockReferenceToBlockIndex, then forwards the call; geometries block size 8/16/32, old 0-3, current 0-3, "
-         "new 1-3, mutable or immutable growth. 92% structured: fill to the steady state (every upload fills a block), then 1-4 rounds (thorough 1-8) of 1-3 readers obtained on random live blocks (85% on the damaged probe) -> "
+         "new 1-3, mutable or immutable growth; 25% of the cases construct the map with initialBlocksCount 1..capacity+3 (the harness pushes that many blocks, each with its probes, into the block list before the first operation; above capacity the constructor quarantines the excess). 92% structured: fill to the steady state (every upload fills a block), then 1-4 rounds (thorough 1-8) of 1-3 readers obtained on random live blocks (85% on the damaged probe) -> "
          "each finishes before the Put, at its PushBack / rotation PopFront / a later block-list call, after it, or never -> finalizers of earlier Puts -> further Puts (release of the quarantined blocks) "
          "with stale callbacks; 8% hostile op streams. Observation per op: code, chosen block, per block-list call (kind, callback results incl. the error logger's release count, visibility vector), "
          "visibility vector after the op; compared verbatim with the extracted model. non-trivial = a detection landed inside a Put; distinct = distinct input; "
          "class = where detections landed (mid-rotation / mid-put / outside / none)",
-    modelled=["increaseTotalBlocksToBeReleased's compare-and-swap loop is one atomic maximum step in Store/Quarantine.v; Store/CasMax.v models the loop at Load/CompareAndSwap granularity for any number of concurrent calls and proves the abstraction's properties (cas_loop_is_atomic_maximum), but the two models are not composed; Go atomics trusted; callbacks run on the harness goroutine at the chosen positions (positions between two block-list calls of one Put are indistinguishable for the real code: at most one access to the atomic lies between them)",
+    modelled=["increaseTotalBlocksToBeReleased's compare-and-swap loop is one atomic maximum step in Store/Quarantine.v (the model the harness is compared with); Store/QFine.v composes the Load/CompareAndSwap-granularity loop of Store/CasMax.v with that model and proves that every fine-grained trace is a coarse trace with stutter steps (fine_grained_refines_atomic_maximum; safety only, lock-freedom not stated); Go atomics trusted; callbacks run on the harness goroutine at the chosen positions (positions between two block-list calls of one Put are indistinguishable for the real code: at most one access to the atomic lies between them)",
               "uint64 counters do not reach 2^64; the wrapping subtraction in BlockReferenceToBlockIndex is modelled (boundary below the release counter hides every block)",
               "every fresh block holds the harness's two 1-byte probes (q_pb = 2); uploads larger than blockSize-2 but not larger than blockSize are not generated (they would rotate for ever)",
-              "PushBack never fails (4096 device blocks); initialBlocksCount = 0 (restored block lists are C02/C03's subject)",
-              "fuel of the Put loop / final allocation loop is not proved sufficient: out of fuel is the explicit code -1, never observed"],
+              "PushBack never fails (4096 device blocks); restored blocks are fresh blocks holding only the probes (what the blob map sees of a restored block list: a count; restoring itself is C02/C03's subject)",
+              "fuel: proved sufficient (Store/QFuel.v) for upload sizes <= blockSize-2 or > blockSize, the sizes the harness generates and accepts"],
 )
